@@ -81,6 +81,17 @@ Section PREADING.
     end.
 End PREADING.
 
-(* the statement's meaning under the generic interpreter *)
+(* ---- the reading of Process since the absent-label fix: pos = the indexed selectors, neg = the inverses of the selectors
+   that accept "" on a stored label; a fingerprint with an index row (inside the date bounds) satisfying one of the
+   inverses is left out.  The exclusion is applied to the rows before grouping; it depends on the fingerprint only. ---- *)
+Definition prof_rejected (re : string -> string -> bool) (D1 D2 : Z) (neg : list selector) (rows : list pginrow) (fp : N) : bool :=
+  existsb (fun n => existsb (N.eqb fp) (prof_fp_sel re D1 D2 [n] rows)) neg.
+Definition prof_fp_sel_abs (re : string -> string -> bool) (D1 D2 : Z) (pos neg : list selector) (rows : list pginrow) : list N :=
+  prof_fp_sel re D1 D2 pos (filter (fun r => negb (prof_rejected re D1 D2 neg rows (pg_fp r))) rows).
+
+(* the statement's meaning under the generic interpreter; a fingerprint query may itself use
+   fingerprint IN (SELECT fingerprint ..) (one level: the sub-queries are plain index queries over the same table) *)
+Definition prof_cte (re : string -> string -> bool) (rows : list pginrow) : select -> option (list N) :=
+  fun q' => Some (eval_fpq re no_cte q' (map pgin_env rows)).
 Definition eval_prof_sel (re : string -> string -> bool) (q : select) (rows : list pginrow) : list N :=
-  eval_fpq re no_cte q (map pgin_env rows).
+  eval_fpq re (prof_cte re rows) q (map pgin_env rows).
